@@ -16,8 +16,15 @@
    because `(a) = 1` is not a valid assignment. *)
 From Coq Require Import String List QArith.
 
+(* Which interpreter is modelled.  Lua53: PUC-Rio Lua 5.3 built with LUA_COMPAT_5_2 (what the repo's CI
+   installs as `lua5.3`) -- the REFERENCE semantics of the project.  LuaJIT: LuaJIT 2.x without
+   5.2 compatibility (= Lua 5.1 rules + goto); kept for information (the LÖVE deployment target). *)
+Inductive dialect := Lua53 | LuaJIT.
+
+Definition is53 (d : dialect) : bool := match d with Lua53 => true | LuaJIT => false end.
+
 Inductive binop :=
-| OAdd | OSub | OMul | ODiv | OMod | OPow | OConcat
+| OAdd | OSub | OMul | ODiv | OIDiv | OMod | OPow | OConcat       (* OIDiv `//` exists in Lua53 only *)
 | OEq | ONe | OLt | OLe | OGt | OGe
 | OAnd | OOr.
 
@@ -27,7 +34,7 @@ Inductive expr :=
 | ENil
 | ETrue
 | EFalse
-| ENum (q : Q)                               (* always in lowest terms (Qred) *)
+| ENum (fl : bool) (q : Q)                   (* q in lowest terms; fl: written as a float (`1.0`, `1e3`) *)
 | EStr (s : string)
 | EVar (x : string)                          (* local, upvalue or global: decided by the scope *)
 | EIndex (e k : expr)
